@@ -66,9 +66,14 @@ func (s *Server) ResetHits() {
 }
 
 func (s *Server) handle(w http.ResponseWriter, r *http.Request) {
+	// a path is scripted with or without its query; the query is part of the resource's name
+	key := r.URL.Path
+	if r.URL.RawQuery != "" {
+		key += "?" + r.URL.RawQuery
+	}
 	s.mu.Lock()
-	s.hits[r.URL.Path]++
-	b, ok := s.beh[r.URL.Path]
+	s.hits[key]++
+	b, ok := s.beh[key]
 	s.mu.Unlock()
 	if !ok {
 		http.Error(w, "not found", 404)
